@@ -272,7 +272,13 @@ func (c *Chunk) addLocked(chunk pb.Chunk) bool {
 	}
 	if c.shouldValidate(chunk) {
 		if !td.validator.AddChunk(chunk.Data, chunk.ChunkId) {
-			plog.Warningf("ignored a invalid chunk %s", key)
+			// the stream is corrupted and can never be completed, stop tracking it.
+			// continuing to accept its remaining chunks leaves a hole for this
+			// chunk in the file and the final validation, which only looks at
+			// what the validator has not checked yet, would still pass
+			plog.Warningf("dropped the stream of an invalid chunk %s", key)
+			c.removeTempDir(chunk)
+			c.reset(key)
 			return false
 		}
 	}
